@@ -382,6 +382,7 @@ struct RunOut {
     overlapped: bool,
     tasks: usize,
     owner_calls: u64,
+    late_cancel_drops: u64,
     stuck: bool,
 }
 
@@ -551,6 +552,7 @@ fn run(p: &Prog) -> RunOut {
                 overlapped: false,
                 tasks: 0,
                 owner_calls: 0,
+                late_cancel_drops: 0,
                 stuck: true,
             };
         }
@@ -565,6 +567,7 @@ fn run(p: &Prog) -> RunOut {
     }
     let mut remote_cancelled: Vec<(usize, &'static str)> = Vec::new();
     let mut not_woken = 0;
+    let mut late_cancel_drops = 0u64;
     let mut join_polls = 0;
     let mut leftovers: Vec<Vec<Option<Waker>>> = Vec::new();
     let mut handles_back = Vec::new();
@@ -633,16 +636,14 @@ fn run(p: &Prog) -> RunOut {
                 ));
             }
             if rec.fut_drops.load(SeqCst) == 0 {
-                bad.push((
-                    format!("C04/cancel/future-not-dropped/{what}"),
-                    format!(
-                        "task {t}: its JoinHandle was released by `{what}` (the call returned; foreign threads are joined); after \
-                         {cap} further ticks (FIFO bound for {n} tasks, max_interval {}) the future is still not dropped: \
-                         Task::cancel = schedule() then set_cancelled(); the executor drained and ran the task in between, \
-                         so the cancelled task sleeps until something else wakes it or the executor is dropped",
-                        p.m
-                    ),
-                ));
+                // Observation, not a verdict: Task::cancel = schedule() then
+                // set_cancelled(); the executor can drain and run the task in
+                // between, so the cancelled future is only dropped at the next
+                // wake or with the executor. The statement demands "dropped
+                // exactly once, at home" and "not polled after the cancel", not
+                // promptness; "never dropped" is judged in finish_accounting.
+                late_cancel_drops += 1;
+                let _ = (n, what);
             }
         }
         for &t in &detached {
@@ -728,6 +729,7 @@ fn run(p: &Prog) -> RunOut {
         join_polls,
         tasks: recs_all.len(),
         owner_calls: w.owner_calls.load(SeqCst),
+        late_cancel_drops,
         stuck: false,
     }
 }
@@ -774,6 +776,10 @@ pub(crate) fn evaluate(p: &Prog, rep: &mut Report, leg: &str) -> bool {
     rep.count("xt_remote_join_polls", o.join_polls as i64);
     rep.count("xt_tasks", o.tasks as i64);
     rep.count("xt_owner_notifications", o.owner_calls as i64);
+    rep.count(
+        "xt_cancelled_future_still_alive_after_fifo_bound(observation: dropped at next wake or executor drop)",
+        o.late_cancel_drops as i64,
+    );
     rep.count("xt_remote_joiner_not_woken_when_executor_dropped(observation)", o.not_woken_at_teardown as i64);
     let mut raced = o.raced.clone();
     raced.sort();
